@@ -260,6 +260,19 @@ def upgradeMonotone (kind : Kind) (w : World) (out : CallOut) : Bool :=
     if held wl ∧ (ruSurge wl.ru).isSome then decide (exposureBG kind wl ≤ exposureW kind out.world) else true
   | none => true
 
+/-- **C01** `UpgradeBatch` raises the surge only on a workload whose blue-green hold is in place afterwards: new pods
+    never become available (`minReadySeconds = MaxReadySeconds`, update type not foreign) and — Deployment, where the
+    patch sets it — `maxUnavailable = 0`. -/
+def upgradeKeepsHold (kind : Kind) (out : CallOut) : Bool :=
+  if out.writes = 0 then true
+  else
+    match out.world.wl with
+    | some wl' =>
+      (match kind with
+       | .deployment => held wl'
+       | .cloneSet => decide (wl'.minReadySeconds = maxReady) && decide (wl'.stype ≠ .other))
+    | none => false
+
 /-- **C01** `Initialize` exposes nothing of the new revision on a prepared workload, and never more than one pod
     beyond what was exposed (a paused CloneSet of a foreign update type is outside: `Initialize` un-pauses it). -/
 def initExposure (kind : Kind) (w : World) (out : CallOut) : Bool :=
@@ -268,6 +281,31 @@ def initExposure (kind : Kind) (w : World) (out : CallOut) : Bool :=
     (if kind = .cloneSet ∧ wl.paused ∧ wl.stype = .other then true
      else decide (exposureW kind out.world ≤ max (exposureBG kind wl) 1)) &&
     (if prepared kind wl then decide (exposureW kind out.world = 0) else true)
+  | none => true
+
+/-- **C01** a successful `Initialize` that takes control installs the complete blue-green hold — `minReadySeconds =
+    MaxReadySeconds`, `maxUnavailable = 0` — with a surge that `CalculateBatchContext` reads as "nothing exposed yet"
+    (so that the first batch is always an upgrade from `0`). -/
+def initInstallsHold (w : World) (br : BR) (out : CallOut) : Bool :=
+  match w.wl, out.world.wl with
+  | some wl, some wl' =>
+    if ¬ controlled br wl ∧ out.res = .ok then
+      decide (wl'.minReadySeconds = maxReady) && decide (ruUnavailable wl'.ru = some (int 0)) &&
+      decide (curSurge wl' = int 0) && controlled br wl'
+    else true
+  | _, _ => true
+
+/-- the HPA `findHPAForWorkload` associates with the workload is disabled (its target name carries the suffix) -/
+def hpaDisabled (w : World) : Bool :=
+  match findHPA w noFault with
+  | .val (some (_, k)) => decide (k ≠ 0)
+  | _ => true
+
+/-- **C01** a successful `Initialize` leaves the workload's HPA disabled, so that it cannot scale the workload (and
+    with it every percentage step) during the release. -/
+def initDisablesHPA (w : World) (br : BR) (out : CallOut) : Bool :=
+  match w.wl with
+  | some wl => if ¬ controlled br wl ∧ out.res = .ok then hpaDisabled out.world else true
   | none => true
 
 /-! ### C09: panics -/
@@ -392,10 +430,13 @@ def stepOracles (kind : Kind) (op : Op) (w : World) (br : BR) (o : Option Orig) 
    | .init =>
      [("C05.bg_init_saves_original", initSavesOriginal kind w br out),
       ("C06.bg_init_keeps_saved", initKeepsSaved w out),
-      ("C01.bg_init_exposure", initExposure kind w out)]
+      ("C01.bg_init_exposure", initExposure kind w out),
+      ("C01.bg_init_installs_hold", initInstallsHold w br out),
+      ("C01.bg_init_disables_hpa", initDisablesHPA w br out)]
    | .upgrade =>
      [("C01.bg_upgrade_within_step", upgradeWithinStep kind w br out),
-      ("C01.bg_upgrade_monotone", upgradeMonotone kind w out)]
+      ("C01.bg_upgrade_monotone", upgradeMonotone kind w out),
+      ("C01.bg_upgrade_keeps_hold", upgradeKeepsHold kind out)]
    | .fin =>
      [("C05.bg_finalize_restores_hpa", finalizeRestoresHPA w br out),
       ("C05.bg_finalize_releases_workload", finalizeReleases kind w br out),
